@@ -903,7 +903,12 @@ class SymbolTable():
 
         tmp_symbol = symbol1.copy()
         symbol1.copy_properties(symbol2)
-        symbol2.copy_properties(tmp_symbol)
+        try:
+            symbol2.copy_properties(tmp_symbol)
+        except TypeError:
+            # The symbols are of incompatible types so restore the first one.
+            symbol1.copy_properties(tmp_symbol)
+            raise
 
         # Update argument list if necessary
         index1 = None
